@@ -25,6 +25,7 @@ TRANSLATORS = [
     ('gen_callgraph', ['CallGraph.v']),
     ('gen_lexpins', ['LexPins.v']),
     ('gen_passes', ['PassTab.v']),
+    ('gen_cli', ['CliTab.v']),
 ]
 
 
